@@ -35,6 +35,11 @@ def spec(tier):
                 for lo, hi in (((-1, 19), (20, 39), (40, 65), (66, 99), (100, 129)) if thorough else ((-1, 19), (20, 39), (40, 65))):
                     mk(f"ram_oc{int(oc)}_t{t2}_s{sus}_r{lo}", dict(cap_ram=I(0, RM), r1=I(lo, hi), r2=I(-1, RM + 1)),
                        overcommit=oc, t2=t2, sus_at=sus, m1=0, m2=0, m3=0, r3=5, timeout=240)
+    # V1b': RAM handed out in eighths of a GB (pool and allocations not whole numbers; sums stay exact in binary)
+    for oc in (False, True):
+        for sus in (-1, 1):
+            mk(f"ram_eighths_oc{int(oc)}_s{sus}", dict(cap_ram=I(0, RM), r1=I(1, 40), r2=I(-1, RM + 1)),
+               overcommit=oc, t2=1, sus_at=sus, m1=0, m2=0, m3=0, r3=5, scale=0.125, timeout=300)
     # V1c: both dimensions of one late job + capacities
     for oc in (False, True):
         mk(f"mixed_oc{int(oc)}", dict(cap_cpu=I(0, CM), cap_ram=I(0, RM), c2=I(-1, CM + 1), r2=I(-1, RM + 1)),
